@@ -31,7 +31,6 @@ import (
 	metav1 "k8s.io/apimachinery/pkg/apis/meta/v1"
 	"k8s.io/apimachinery/pkg/runtime"
 	"k8s.io/apimachinery/pkg/types"
-	clientgoscheme "k8s.io/client-go/kubernetes/scheme"
 	"k8s.io/client-go/tools/record"
 	fakeclock "k8s.io/utils/clock/testing"
 	ctrl "sigs.k8s.io/controller-runtime"
@@ -83,7 +82,7 @@ func vtC17Init() {
 	}
 	vtC17Scheme = runtime.NewScheme()
 	_ = sev1alpha1.AddToScheme(vtC17Scheme)
-	_ = clientgoscheme.AddToScheme(vtC17Scheme)
+	_ = corev1.AddToScheme(vtC17Scheme) // a small scheme: the fake tracker rebuilds a REST mapper over all known types on every write
 	vtC17Recorder = record.NewBroadcaster().NewRecorder(vtC17Scheme, corev1.EventSource{Component: Name})
 }
 
@@ -561,174 +560,313 @@ func vtC17Exec(in []int64) []int64 {
 }
 
 // ---- generator
+//
+// Two families. "script:*" cases follow one of the controller's storylines (reservation-first
+// migration to the end, direct eviction, timeout, pending-pod migration, preemption, user-provided
+// reservation, unschedulable / expired / same-node / bound-by-another reservation, pod replaced
+// mid-way) and perturb it: every reconcile may carry a fault mask, and random environment events,
+// ticks, restarts and extra reconciles are inserted between the scripted steps. "random:*" cases are
+// unstructured sequences over the same operations.
 
-func vtC17GenRes(r *rand.Rand, style string, podNode int64) []int64 {
-	// exists label phase node sched expired owner bound needp pdone
-	a := make([]int64, 10)
-	if r.Intn(8) == 0 {
-		return a // deleted
+type vtC17G struct {
+	r       *rand.Rand
+	in      []int64
+	n       int
+	podUID  int64
+	podNode int64
+	faulty  int // per-mille of reconciles with a fault mask
+}
+
+func (g *vtC17G) op(kind int64, a ...int64) {
+	rec := make([]int64, vtC17Width)
+	rec[0] = kind
+	copy(rec[1:], a)
+	g.in = append(g.in, rec...)
+	g.n++
+}
+
+func (g *vtC17G) mask() int64 {
+	if g.r.Intn(1000) >= g.faulty {
+		return 0
 	}
-	a[0] = 1
-	a[1] = vtB(r.Intn(4) != 0) // mostly labelled
-	switch r.Intn(10) {
+	switch g.r.Intn(4) {
 	case 0:
-		a[2] = 0
+		return int64(1) << uint(g.r.Intn(3))
 	case 1:
-		a[2] = 1
-	case 2, 3, 4, 5:
-		a[2] = 2
-	case 6:
-		a[2] = 3
-	case 7:
-		a[2] = 4
+		return int64(1) << uint(g.r.Intn(8))
+	case 2:
+		return int64(g.r.Intn(16))
 	default:
-		a[2] = 5
+		return int64(g.r.Intn(256))
 	}
+}
+
+func (g *vtC17G) reconcile() { g.op(0, g.mask()) }
+
+func (g *vtC17G) otherNode() int64 { return g.podNode%3 + 1 }
+
+// res: exists label phase node sched expired owner bound needp pdone
+func (g *vtC17G) res(label, phase, node, sched, expired, owner, bound, needp, pdone int64) {
+	g.op(1, 1, label, phase, node, sched, expired, owner, bound, needp, pdone)
+}
+
+func (g *vtC17G) pod(uid, node, sched, ctrl int64) {
+	g.podUID, g.podNode = uid, node
+	g.op(2, 1, uid, node, sched, ctrl)
+}
+
+func (g *vtC17G) randomRes() {
+	r := g.r
+	if r.Intn(8) == 0 {
+		g.op(1, 0)
+		return
+	}
+	phase := []int64{0, 1, 2, 2, 2, 2, 3, 4, 5, 5}[r.Intn(10)]
+	node := int64(0)
 	if r.Intn(5) != 0 {
-		a[3] = int64(1 + r.Intn(3))
-		if r.Intn(4) == 0 && podNode != 0 {
-			a[3] = podNode
+		node = int64(1 + r.Intn(3))
+		if r.Intn(4) == 0 && g.podNode != 0 {
+			node = g.podNode
 		}
 	}
-	switch r.Intn(6) {
-	case 0:
-		a[4] = 0
-	case 1:
-		a[4] = 2
-	case 2:
-		a[4] = 3
-	default:
-		a[4] = 1
-	}
-	if a[2] == 5 {
-		a[5] = int64(r.Intn(2))
+	sched := []int64{0, 2, 3, 1, 1, 1}[r.Intn(6)]
+	expired := int64(0)
+	if phase == 5 {
+		expired = int64(r.Intn(2))
 	} else if r.Intn(10) == 0 {
-		a[5] = 1
+		expired = 1
 	}
-	a[6] = int64(r.Intn(3))
-	if style == "pendingpod" && r.Intn(2) == 0 {
-		a[6] = 2
-	} else if r.Intn(3) != 0 {
-		a[6] = 1
+	owner := []int64{0, 1, 1, 1, 2}[r.Intn(5)]
+	bound := int64(0)
+	if phase == 3 || r.Intn(4) == 0 {
+		bound = int64(1 + r.Intn(3))
 	}
-	if a[2] == 3 || r.Intn(4) == 0 {
-		a[7] = int64(1 + r.Intn(3))
+	needp, pdone := int64(0), int64(0)
+	if r.Intn(5) == 0 {
+		needp, pdone = int64(r.Intn(2)), int64(r.Intn(2))
 	}
-	if style == "preempt" || r.Intn(6) == 0 {
-		a[8] = int64(r.Intn(2))
-		a[9] = int64(r.Intn(2))
+	g.res(vtB(r.Intn(4) != 0), phase, node, sched, expired, owner, bound, needp, pdone)
+}
+
+func (g *vtC17G) randomPod() {
+	r := g.r
+	if r.Intn(6) == 0 {
+		g.op(2, 0)
+		g.podNode = 0
+		return
 	}
-	return a
+	uid := g.podUID
+	if uid == 0 || r.Intn(3) == 0 {
+		uid = int64(1 + r.Intn(3))
+	}
+	sched := int64(2)
+	if r.Intn(6) == 0 {
+		sched = int64(r.Intn(3))
+	}
+	node := int64(1 + r.Intn(3))
+	if sched == 1 {
+		node = 0
+	}
+	g.pod(uid, node, sched, int64(r.Intn(2)))
+}
+
+// one random operation (used between scripted steps and for the unstructured family)
+func (g *vtC17G) noise() {
+	k := g.r.Intn(100)
+	switch {
+	case k < 40:
+		g.reconcile()
+	case k < 60:
+		g.randomRes()
+	case k < 74:
+		g.randomPod()
+	case k < 82:
+		g.op(3, int64(g.r.Intn(3)))
+	case k < 92:
+		g.op(4, int64(g.r.Intn(6)))
+	default:
+		g.op(5)
+	}
 }
 
 func vtC17Gen(r *rand.Rand, i int) (string, []int64) {
-	style := []string{"happy", "happy", "faults", "faults", "env", "env", "timeout", "direct", "pendingpod", "preempt", "restart"}[r.Intn(11)]
-	direct := int64(0)
-	if style == "direct" || r.Intn(12) == 0 {
-		direct = 1
-	}
-	paused := vtB(r.Intn(25) == 0)
-	ttl := int64(0)
-	if style == "timeout" || r.Intn(3) == 0 {
-		ttl = int64(1 + r.Intn(20))
-	}
-	pvalid := vtB(r.Intn(30) != 0)
+	g := &vtC17G{r: r}
+	direct, paused, ttl, pvalid, rref0, createdBy := int64(0), int64(0), int64(0), int64(1), int64(0), int64(0)
 	initphase := int64(r.Intn(2))
-	rref0 := vtB(r.Intn(5) == 0)
-	createdBy := vtB(r.Intn(4) == 0)
-	nops := 4 + r.Intn(11)
-	in := []int64{direct, paused, ttl, pvalid, initphase, rref0, createdBy, int64(nops)}
-	podNode := int64(0)
-	podUID := int64(1)
-	op := func(kind int64, a ...int64) {
-		rec := make([]int64, vtC17Width)
-		rec[0] = kind
-		copy(rec[1:], a)
-		in = append(in, rec...)
+	if r.Intn(40) == 0 {
+		paused = 1
 	}
-	mask := func() int64 {
-		switch style {
-		case "faults":
-			switch r.Intn(3) {
-			case 0:
-				return 0
-			case 1:
-				return int64(1) << uint(r.Intn(8))
-			default:
-				return int64(r.Intn(256))
-			}
-		default:
-			if r.Intn(12) == 0 {
-				return int64(1) << uint(r.Intn(6))
-			}
-			return 0
-		}
+	if r.Intn(60) == 0 {
+		pvalid = 0
 	}
-	genPod := func() {
-		if r.Intn(7) == 0 {
-			op(2, 0)
-			podNode = 0
-			return
+	if r.Intn(4) == 0 {
+		ttl = int64(5 + r.Intn(30))
+	}
+	if r.Intn(8) == 0 {
+		createdBy = 1
+	}
+	g.faulty = []int{0, 0, 100, 300, 600}[r.Intn(5)]
+	noise := []int{0, 5, 15, 35}[r.Intn(4)] // percent chance of a random op before each scripted step
+	step := func(f func()) {
+		for r.Intn(100) < noise && g.n < 40 {
+			g.noise()
 		}
+		f()
+	}
+	ctrl := int64(r.Intn(2))
+	uid := int64(1 + r.Intn(3))
+	node := int64(1 + r.Intn(3))
+	bound := uid%3 + 1
+	label := "random"
+	family := r.Intn(100)
+	switch {
+	case family < 22: // reservation-first migration to the end
+		label = "script:migrate"
+		step(func() { g.pod(uid, node, 2, ctrl) })
+		step(g.reconcile)
+		step(func() { g.res(1, 2, g.otherNode(), 1, 0, 1, 0, 0, 0) })
+		step(g.reconcile)
+		step(g.reconcile)
+		step(func() { g.op(2, 0); g.podNode = 0 })
+		step(g.reconcile)
+		step(func() { g.res(1, 3, node%3+1, 1, 0, 1, bound, 0, 0) })
+		step(func() { g.op(3, int64(r.Intn(3))) })
+		step(g.reconcile)
+		step(func() { g.op(3, 2) })
+		step(g.reconcile)
+		step(g.reconcile)
+	case family < 30: // direct eviction
+		label = "script:direct"
+		direct = 1
+		step(func() { g.pod(uid, node, 2, ctrl) })
+		step(g.reconcile)
+		step(g.reconcile)
+		step(func() { g.op(2, 0); g.podNode = 0 })
+		step(g.reconcile)
+		step(g.reconcile)
+	case family < 38: // timeout at some point of a migration
+		label = "script:timeout"
+		ttl = int64(3 + r.Intn(10))
+		cut := r.Intn(5)
+		steps := []func(){
+			func() { g.pod(uid, node, 2, ctrl) },
+			g.reconcile,
+			func() { g.res(1, 2, g.otherNode(), 1, 0, 1, 0, 0, 0) },
+			g.reconcile,
+		}
+		for k, f := range steps {
+			if k == cut {
+				step(func() { g.op(4, ttl+int64(r.Intn(3))-1) })
+			}
+			step(f)
+		}
+		if cut >= len(steps) {
+			step(func() { g.op(4, ttl+int64(r.Intn(3))-1) })
+		}
+		step(g.reconcile)
+		step(g.reconcile)
+	case family < 46: // migration of a pending (unschedulable) pod
+		label = "script:pendingpod"
+		step(func() { g.pod(uid, 0, 1, ctrl) })
+		step(g.reconcile)
+		step(func() { g.res(1, 2, node, 1, 0, 2, 0, 0, 0) })
+		step(g.reconcile)
 		if r.Intn(3) == 0 {
-			podUID = int64(1 + r.Intn(3))
+			step(func() { g.res(1, 3, node, 1, 0, 2, []int64{uid, bound}[r.Intn(2)], 0, 0) })
+			step(g.reconcile)
 		}
-		podNode = int64(1 + r.Intn(3))
-		sched := int64(2)
-		if style == "pendingpod" {
-			sched = int64(r.Intn(3))
-		} else if r.Intn(8) == 0 {
-			sched = int64(r.Intn(3))
+		step(func() { g.pod(uid, node, 2, ctrl) })
+		step(g.reconcile)
+		step(g.reconcile)
+	case family < 53: // preemption extension point
+		label = "script:preempt"
+		step(func() { g.pod(uid, node, 2, ctrl) })
+		step(g.reconcile)
+		step(func() { g.res(1, 2, 0, []int64{0, 2}[r.Intn(2)], 0, 1, 0, 1, 0) })
+		step(g.reconcile)
+		step(func() { g.res(1, 2, []int64{0, g.otherNode()}[r.Intn(2)], []int64{0, 2, 1}[r.Intn(3)], 0, 1, 0, 1, 1) })
+		step(g.reconcile)
+		step(g.reconcile)
+	case family < 60: // reservation supplied by the user (possibly without the order label)
+		label = "script:userref"
+		rref0 = 1
+		step(func() { g.res(int64(r.Intn(2)), 2, g.otherNode(), 1, 0, 1, 0, 0, 0) })
+		step(func() { g.pod(uid, node, 2, ctrl) })
+		step(g.reconcile)
+		step(g.reconcile)
+		step(func() { g.op(1, 0) }) // reservation deleted
+		step(g.reconcile)
+	case family < 70: // a reservation that must not lead to an eviction
+		label = "script:refuse"
+		step(func() { g.pod(uid, node, 2, ctrl) })
+		step(g.reconcile)
+		switch r.Intn(6) {
+		case 0: // unschedulable
+			step(func() { g.res(1, []int64{1, 2, 5}[r.Intn(3)], 0, 2, 0, 1, 0, 0, 0) })
+		case 1: // expired
+			step(func() { g.res(1, 5, []int64{0, g.otherNode()}[r.Intn(2)], []int64{1, 2}[r.Intn(2)], 1, 1, 0, 0, 0) })
+		case 2: // same node
+			step(func() { g.res(1, 2, node, 1, 0, 1, 0, 0, 0) })
+		case 3: // already consumed
+			step(func() { g.res(1, 3, g.otherNode(), 1, 0, 1, bound, 0, 0) })
+		case 4: // still pending, with a node already
+			step(func() { g.res(1, int64(r.Intn(2)), g.otherNode(), 1, 0, 1, 0, 0, 0) })
+		default: // deleted
+			step(func() { g.op(1, 0) })
 		}
-		if sched == 1 {
-			podNode = 0
-		}
-		op(2, 1, podUID, podNode, sched, int64(r.Intn(2)))
-	}
-	n := 0
-	// usual prologue: the pod exists
-	if r.Intn(10) != 0 {
-		genPod()
-		n++
-	}
-	for n < nops {
-		k := r.Intn(100)
-		switch {
-		case k < 50:
-			op(0, mask())
-		case k < 72:
-			a := vtC17GenRes(r, style, podNode)
-			if style == "happy" && r.Intn(3) != 0 {
-				// a cooperative scheduler: available on another node, maybe later bound
-				a = []int64{1, 1, 2, podNode%3 + 1, 1, 0, 1, 0, 0, 0}
-				if r.Intn(3) == 0 {
-					a[2], a[7] = 3, int64(1+r.Intn(3))
-				}
-				if r.Intn(3) == 0 {
-					a[7] = int64(1 + r.Intn(3))
-				}
-			}
-			op(1, a...)
-		case k < 84:
-			genPod()
-		case k < 90:
-			op(3, int64(r.Intn(3)))
-		case k < 96:
-			d := int64(r.Intn(4))
-			if style == "timeout" {
-				d = int64(r.Intn(12))
-			}
-			op(4, d)
+		step(g.reconcile)
+		step(g.reconcile)
+	case family < 80: // the eviction call fails, then the world changes
+		label = "script:retry"
+		step(func() { g.pod(uid, node, 2, ctrl) })
+		step(g.reconcile)
+		step(func() { g.res(1, 2, g.otherNode(), 1, 0, 1, 0, 0, 0) })
+		rn := g.otherNode()
+		g.op(0, int64(4)<<uint(r.Intn(2))) // third or fourth write fails (the eviction call)
+		switch r.Intn(4) {
+		case 0: // pod replaced, maybe onto the reservation's node
+			step(func() { g.pod(uid%3+1, []int64{rn, node, g.otherNode()}[r.Intn(3)], 2, ctrl) })
+		case 1: // reservation consumed meanwhile
+			step(func() { g.res(1, 3, rn, 1, 0, 1, bound, 0, 0) })
+		case 2: // reservation expired meanwhile
+			step(func() { g.res(1, 5, rn, 1, 1, 1, 0, 0, 0) })
 		default:
-			if style == "restart" || r.Intn(6) == 0 {
-				op(5)
-			} else {
-				op(0, mask())
-			}
 		}
-		n++
+		step(g.reconcile)
+		step(g.reconcile)
+	default:
+		label = "random"
+		if r.Intn(8) == 0 {
+			direct = 1
+		}
+		rref0 = vtB(r.Intn(5) == 0)
+		noise = 0
+		if r.Intn(10) != 0 {
+			g.randomPod()
+		}
+		n := 4 + r.Intn(12)
+		for g.n < n {
+			g.noise()
+		}
 	}
-	return style, in
+	// epilogue: a few more random operations (finished jobs must stay finished)
+	for k := r.Intn(4); k > 0; k-- {
+		g.noise()
+	}
+	if g.faulty == 0 && label != "random" && !vtC17HasMask(g.in) {
+		label += ":nofault"
+	}
+	hdr := []int64{direct, paused, ttl, pvalid, initphase, rref0, createdBy, int64(g.n)}
+	return label, append(hdr, g.in...)
+}
+
+func vtC17HasMask(ops []int64) bool {
+	for k := 0; k+vtC17Width <= len(ops); k += vtC17Width {
+		if ops[k] == 0 && ops[k+1] != 0 {
+			return true
+		}
+	}
+	return false
 }
 
 func TestVerifC17(t *testing.T) { vtMain(t, "C17", vtC17Gen, vtC17Exec) }
